@@ -9,6 +9,11 @@ CLAIMED = {
    note="Trusted: Coq kernel + vm_compute; translator (gcc parses the headers, cross-checked by a textual parse); harness/dump_tables.c; GF2Poly.v as the definition of the field. No axioms (Print Assumptions: closed under the global context).",
    technique="Coq proof by exhaustive vm_compute sweep over translator-regenerated tables + model/implementation table correspondence",
    ref="3/C14"),
+ "C04": dict(
+   text="Machine-checked proof (Coq, 1,000+ lines, no axioms) that the Gallina model of the iterative decoder (steps 0-3 of of_linear_binary_code_decode_with_new_symbol, degree-1 work list, recursive re-injection, early exits) makes available exactly the source part of the inductively defined peeling closure of the received set, for every well-formed parity-check matrix, every size, every symbol type and every finite history (any order, repetitions, any prefix); never runs out of fuel n+1; order and duplicates provably do not matter. Tied to the C by running the extracted model and the compiled library on the same histories and comparing completion flag, source mask and repair mask after every call, with the matrix read from the C session, plus an independent python closure oracle on the C output.",
+   note="Trusted: Coq kernel; ITModel.v as a hand-written mirror of of_it_decoding.c (validated by the per-prefix correspondence); well-formedness of the matrices the C builds is checked on every dumped matrix (proved for the construction under C05/C15); extraction + drivers. No axioms.",
+   technique="Coq proof by invariant/induction over a hand-written model + extracted-model-vs-C correspondence after every prefix",
+   ref="3/C04"),
  "C13": dict(
    text="Machine-checked proof (Coq) that the Gallina models of the seven symbol kernels (XOR one->one, many->one with the 8/4/2/1 operand grouping, one->many; GF(2^8) multiply-accumulate of both codecs, GF(2^4) bytewise and packed two-per-byte) change exactly bytes 0..size-1 of the destination(s) into the bytewise definition, read no operand byte at or beyond size, for every size and operand count (no bound), with the table rows proved to be field multiplication in C14. The models keep the C's loop structure and offset arithmetic; they are tied to the compiled C by a differential run (extracted model vs C under ASan, exact-size heap blocks, all 8 alignments, every size 0..70+, operand counts 0..20, every field constant).",
    note="Trusted: Coq kernel + vm_compute; Kernels.v's modelling of a word access as an access to the bytes it covers (LP64 little-endian non-SSE path); alignment exists only on the C side of the correspondence; extraction + drivers. No axioms.",
